@@ -27,7 +27,7 @@ from tqv.core import SubCheck, Violation, req
 # caller-owned arrays handed to the library must come back unchanged (see tqv/purity.py)
 from tqv.purity import install as _install_purity  # noqa: E402
 
-_install_purity('toqito.states', 'toqito.matrices')
+_install_purity('toqito.states', 'toqito.matrices', twice=True)
 
 PROPERTY = "C17"
 TOL = 1e-9
